@@ -174,6 +174,10 @@ pub fn worker_main(check: &dyn TCheck, args: &Args, w: usize, n: usize) -> ! {
         for s in 0..scheds {
             let sched_seed = simcore::prng::hash_label(args.seed, &format!("{}-sched", check.id()), work * 100_000 + s);
             let strategy = strategy_for(work + s);
+            // announced before running: if this process dies in the execution (memory error), the
+            // parent knows which one it was
+            println!("{}", json!({"t":"begin","work":work,"s":s,"strategy":strategy.name(),"sched_seed":sched_seed}));
+            proc::flush_stdout();
             let run = run_once(check, &hooks, &prep, Plan::Explore { seed: sched_seed, strategy });
             let class = run.class();
             let mut rec = json!({
@@ -235,20 +239,28 @@ pub fn parent_main(check: &dyn TCheck, args: &Args) -> ! {
     ];
     wargs.extend(args.rest.iter().cloned());
     let outs = proc::fan_out(n, &wargs);
-    for o in &outs {
-        if !o.ok {
-            simcore::harness_error(&format!("worker {} failed: {}", o.index, o.status));
-        }
-    }
     let mut works: BTreeMap<u64, Value> = BTreeMap::new();
     let mut runs: Vec<Value> = vec![];
+    let mut deaths: Vec<(String, Value)> = vec![];
     for o in outs {
-        for line in o.lines {
-            let Ok(v) = serde_json::from_str::<Value>(&line) else { continue };
+        let mut last_begin: Option<Value> = None;
+        for line in &o.lines {
+            let Ok(v) = serde_json::from_str::<Value>(line) else { continue };
             if v["t"] == "work" {
                 works.insert(v["work"].as_u64().unwrap(), v);
+            } else if v["t"] == "begin" {
+                last_begin = Some(v);
             } else if v["t"] == "run" {
+                last_begin = None;
                 runs.push(v);
+            }
+        }
+        if !o.ok {
+            match last_begin {
+                // the worker process itself died while running jubako code in an execution:
+                // a memory error (or abort) is an observation, not a harness failure
+                Some(b) if o.status.contains("signal") => deaths.push((o.status.clone(), b)),
+                _ => simcore::harness_error(&format!("worker {} failed: {}", o.index, o.status)),
             }
         }
     }
@@ -325,6 +337,13 @@ pub fn parent_main(check: &dyn TCheck, args: &Args) -> ! {
     ev.extra.insert("real_vs_stub".into(), check.real_vs_stub());
     ev.assumptions = check.assumptions();
     ev.assumptions.push("interleavings are sequentially consistent and switch at synchronisation operations, lock releases and verif::point sites only; weak-memory effects and finer-grained races are out of reach".into());
+    for (status, b) in &deaths {
+        let sig = format!("{id}|process-death:{status}");
+        violations.push((sig.clone(), json!({"work": b["work"], "s": b["s"], "strategy": b["strategy"],
+            "violation": {"class": format!("process-death:{status}"), "sched_seed": b["sched_seed"], "trace": Value::Null,
+                          "minimised": false, "original_trace_len": 0, "detail": ["the worker process died inside this execution (memory error or abort); replay re-runs the same seeded schedule"],
+                          "outcome": status}})));
+    }
     ev.violations = violations.len() as u64;
     let mut seen = BTreeSet::new();
     for (sig, r) in &violations {
@@ -384,17 +403,37 @@ pub fn replay_main(check: &dyn TCheck, _args: &Args, file: &str) -> ! {
     let seed = v["seed"].as_u64().unwrap();
     let tier = Tier::parse(v["tier"].as_str().unwrap()).unwrap();
     let work = v["work"].as_u64().unwrap();
-    let trace: Vec<u16> = v["trace"]
-        .as_array()
-        .unwrap_or_else(|| simcore::harness_error("replay file has no trace"))
-        .iter()
-        .map(|x| x.as_u64().unwrap() as u16)
-        .collect();
+    let plan = match v["trace"].as_array() {
+        Some(a) => Plan::Replay {
+            trace: a.iter().map(|x| x.as_u64().unwrap() as u16).collect(),
+        },
+        // no decision trace (the process died): re-run the same seeded schedule
+        None => Plan::Explore {
+            seed: v["sched_seed"].as_u64().unwrap_or_else(|| simcore::harness_error("replay file has neither trace nor sched_seed")),
+            strategy: strategy_from_name(v["strategy"].as_str().unwrap_or("random")),
+        },
+    };
     let hooks = exec::install_hooks();
     exec::install_quiet_panic_hook();
     let scratch = simcore::Scratch::new(&format!("{}-replay", check.id()));
     let prep = check.prepare(seed, tier, work, &scratch.path);
-    let run = run_once(check, &hooks, &prep, Plan::Replay { trace });
+    if v["trace"].as_array().is_none() && std::env::var("VERIF_REPLAY_INNER").is_err() {
+        // the recorded violation is a process death: observe it from outside
+        let st = std::process::Command::new(std::env::current_exe().unwrap())
+            .args(std::env::args().skip(1))
+            .env("VERIF_REPLAY_INNER", "1")
+            .status()
+            .expect("spawn inner replay");
+        use std::os::unix::process::ExitStatusExt;
+        if let Some(sig) = st.signal() {
+            println!("VIOLATION property={} replay={file}", check.id());
+            println!("  class: process-death:signal {sig} (recorded: {})", v["class"]);
+            std::process::exit(1)
+        }
+        std::process::exit(st.code().unwrap_or(2))
+    }
+    proc::flush_stdout();
+    let run = run_once(check, &hooks, &prep, plan);
     println!("replay work {work}: outcome {:?}, {} steps, {} choice points", run.outcome, run.steps, run.choice_points);
     if let Outcome::Diverged(d) = &run.outcome {
         simcore::harness_error(&format!("replay diverged from the recorded schedule: {d}"));
